@@ -88,6 +88,23 @@ def discover_flags(model: Model, roles: Roles, stack_tl) -> list:
             if any(isinstance(n, ast.Raise) for n in walk_scope(fn.node)):
                 fl.raising_getters.add(q)
     out = [f for f in flags.values() if f.setters or f.clearers or f.mixed]
+    # a function that stores one polarity itself but obtains the other through a primitive (or
+    # suspends in between: a generator context manager) both sets and clears: it is 'mixed'
+    for fl in out:
+        prim_set = {x.qualname for x in fl.setters}
+        prim_clr = {x.qualname for x in fl.clearers}
+        for lst, other in ((fl.setters, prim_clr), (fl.clearers, prim_set)):
+            for fn in list(lst):
+                calls_other = False
+                for n in walk_scope(fn.node):
+                    if isinstance(n, ast.Call):
+                        t = model.resolve_call(fn, n)
+                        if t.kind == "func" and t.target.qualname in other:
+                            calls_other = True
+                if calls_other or any(isinstance(n, (ast.Yield, ast.YieldFrom)) for n in walk_scope(fn.node)):
+                    lst.remove(fn)
+                    fl.guarded_setters.discard(fn.qualname)
+                    fl.mixed.append(fn)
     for fl in out:
         getq = {g.qualname for g in fl.getters}
         for st in fl.setters:
